@@ -1,13 +1,15 @@
 #!/usr/bin/env python3
 """Thorough tier for one property (or all).
 
-1. Runs the property's rules on /repo's current tree with test packages loaded as well
-   (who-may-access rules then also see what test binaries can reach). This is the verdict.
-2. Self-test of the checker (never part of the verdict about /repo): replays the mutant corpus
-   (mutants/*.json: anchored in-memory edits; seeded/*/patch.diff: independently written breaking
-   changes) through packages.Config.Overlay -- nothing is written under /repo -- and records which
-   rule reported which mutant (kill matrix) in the evidence file. A mutant whose anchor no longer
-   matches the current tree is skipped and reported as skipped.
+1. Runs the property's rules on /repo's current tree. This is the verdict (same rules as the quick
+   tier; what the thorough tier adds is steps 2 and 3, which measure the checker, not the tree).
+2. Self-test of the checker, detection side (never part of the verdict about /repo): replays the
+   mutant corpus (mutants/*.json: anchored in-memory edits; seeded/*/patch.diff: independently
+   written breaking changes) through packages.Config.Overlay -- nothing is written under /repo --
+   and records which rule reported which mutant (kill matrix) in the evidence file. A mutant whose
+   anchor no longer matches the current tree is skipped and reported as skipped.
+3. Self-test of the checker, false-alarm side: replays refactors/*/patch.diff (independently
+   written behaviour-preserving refactorings) the same way; every rule must stay silent.
 
 Exit status and VIOLATION lines come from step 1 only.
 """
@@ -50,23 +52,41 @@ def refactors_for(prop):
         props = None
         if os.path.exists(meta):
             props = json.load(open(meta)).get("properties")
-        if props is None or prop in props:
+        if props is None or prop is None or prop in props:
             out.append({"id": os.path.basename(d), "patch": patch})
     return out
 
 
-def run_refactor(repo, prop, m):
+def run_refactor(repo, props, m):
+    """Runs the rules of the given properties (list) on one refactoring; returns {prop: result}."""
     tmp = overlay_dir_for_patch(repo, m["patch"])
     if tmp is None:
-        return {"id": m["id"], "status": "skipped", "why": "patch does not apply to the current tree"}
+        return {p: {"id": m["id"], "status": "skipped", "why": "patch does not apply to the current tree"} for p in props}
     try:
-        r = run([BIN, "-repo", repo, "-verif", VERIF, "-prop", prop, "-tier", "quick", "-no-evidence", "-overlay-dir", tmp])
+        r = run([BIN, "-repo", repo, "-verif", VERIF, "-prop", ",".join(props), "-tier", "quick", "-no-evidence", "-overlay-dir", tmp])
     finally:
         shutil.rmtree(tmp, ignore_errors=True)
     if "UNDECIDED property=" in r.stdout:
-        return {"id": m["id"], "status": "skipped", "why": "does not type-check: " + r.stdout.strip().splitlines()[0][:160]}
-    alarms = sorted(set(re.findall(r"^(?:VIOLATED|UNDECIDED) rule=(\S+) construct=\"([^\"]*)\"", r.stdout, re.M)))
-    return {"id": m["id"], "status": "alarm" if alarms else "silent", "alarms": [list(a) for a in alarms]}
+        why = "does not type-check: " + r.stdout.strip().splitlines()[0][:160]
+        return {p: {"id": m["id"], "status": "skipped", "why": why} for p in props}
+    out = {}
+    cur = None
+    per = {p: set() for p in props}
+    for line in r.stdout.splitlines():
+        h = re.match(r"^== (C\d\d):", line)
+        if h:
+            cur = h.group(1)
+            continue
+        a = re.match(r"^(?:VIOLATED|UNDECIDED) rule=(\S+) construct=\"([^\"]*)\"", line)
+        if a and cur in per:
+            per[cur].add((a.group(1), a.group(2)))
+        if line.startswith("UNDECIDED engine:"):
+            for p in props:
+                per[p].add(("engine", line[len("UNDECIDED engine: "):][:120]))
+    for p in props:
+        alarms = sorted(per[p])
+        out[p] = {"id": m["id"], "status": "alarm" if alarms else "silent", "alarms": [list(a) for a in alarms]}
+    return out
 
 
 def overlay_dir_for_patch(repo, patch):
@@ -116,7 +136,7 @@ def run_mutant(repo, prop, kind, m):
     return res
 
 
-def one(prop, repo):
+def one(prop, repo, ref_cache=None):
     t0 = time.time()
     r = run([BIN, "-repo", repo, "-verif", VERIF, "-prop", prop, "-tier", "thorough"])
     sys.stdout.write(r.stdout)
@@ -134,11 +154,14 @@ def one(prop, repo):
         prop, len(killed) + len(survived), len(killed), len(survived), len(skipped)))
     for x in survived:
         print("   SELFTEST-SURVIVED %s (%s): the rules do not see this change" % (x["id"], x["kind"]))
-    refs = refactors_for(prop)
-    ref_results = []
-    if refs:
-        with ThreadPoolExecutor(max_workers=6) as ex:
-            ref_results = list(ex.map(lambda m: run_refactor(repo, prop, m), refs))
+    if ref_cache is not None:
+        ref_results = [ref_cache[m["id"]][prop] for m in refactors_for(prop) if m["id"] in ref_cache]
+    else:
+        refs = refactors_for(prop)
+        ref_results = []
+        if refs:
+            with ThreadPoolExecutor(max_workers=6) as ex:
+                ref_results = [r[prop] for r in ex.map(lambda m: run_refactor(repo, [prop], m), refs)]
     alarmed = [x for x in ref_results if x["status"] == "alarm"]
     silent = [x for x in ref_results if x["status"] == "silent"]
     if ref_results:
@@ -174,9 +197,16 @@ def main():
     prop = sys.argv[1]
     repo = sys.argv[2] if len(sys.argv) > 2 else "/repo"
     props = ["C%02d" % i for i in range(1, 21)] if prop == "all" else prop.split(",")
+    ref_cache = None
+    if len(props) > 3:
+        # one load per refactoring for all requested properties instead of one per (property, refactoring)
+        refs = refactors_for(None)
+        with ThreadPoolExecutor(max_workers=6) as ex:
+            res = list(ex.map(lambda m: run_refactor(repo, props, m), refs))
+        ref_cache = {m["id"]: r for m, r in zip(refs, res)}
     rc = 0
     for p in props:
-        rc = max(rc, one(p, repo))
+        rc = max(rc, one(p, repo, ref_cache))
     sys.exit(rc)
 
 
